@@ -666,6 +666,7 @@ func Run(t *testing.T, sc *Scenario, emit func(evs []vh.Event, stats map[string]
 		rec := &vh.Recorder{}
 		s := vh.NewSched(sc.Seed)
 		s.Free = sc.Opts.Free
+		s.OnProbeSettled = func(site string) { rec.Log("QuiescentOp", "op", site) }
 		for _, site := range []string{"srv.stop.lock", "srv.cancel.lock", "srv.push.lock"} {
 			s.Pass[site] = true
 		}
